@@ -22,7 +22,7 @@ pub fn prop() -> Prop {
         max_len: 700,
         quick: 300_000,
         thorough: 2_500_000,
-        rule: "choice sequence -> envelope from the union of all generators: library-built (route A), decoded from the harness encoder (route B: node-as-subject etc.), decoded structural/byte mutants that the decoder accepts, and DECORATED envelopes (on each of the known predicates 'signed', 'hasRecipient', 'sskrShare', 'isA', 'attachment', 'body', 'result', 'error', 'content', 'note', 'date', 'vendor', 'conformsTo', 'salt': a valid object, a bogus object, the assertion salted i.e. carrying its own assertions, the assertion / its object / its predicate elided, encrypted or compressed, and the predicate repeated) x 6-14 operations drawn from a table of 120 public entry points in the query / transform / obscure / verify / parse / format families with generated arguments (predicates present and absent, target sets, right and wrong keys, level limits, thresholds, salt lengths). oracle: every call returns (value, None or Err) — a panic is a violation, keyed by entry point and panic site. Calls whose documented contract is to panic are not in the table (add_assertions with a non-assertion, Response::with_result on a failure, expect_id, add_salt_in_range with an empty range). non-trivial: envelope has >=1 decorated or obscured element and >=1 op is not a pure getter; distinct by FNV-64 of (encoding, op indices); related operations also call Display / Debug, the generic elide_set/array/target(_with_action) forms, the *_opt / *_using variants, add_signatures(_opt), add_assertions_salted, tree_format_with_target_opt and the Attachments container; salted assertions decorated a second time on the outside (node in node); elements the add API refuses enter through the decoder",
+        rule: "choice sequence -> envelope from the union of all generators: library-built (route A), decoded from the harness encoder (route B: node-as-subject etc.), decoded structural/byte mutants that the decoder accepts, and DECORATED envelopes (on each of the known predicates 'signed', 'hasRecipient', 'sskrShare', 'isA', 'attachment', 'body', 'result', 'error', 'content', 'note', 'date', 'vendor', 'conformsTo', 'salt': a valid object, a bogus object, the assertion salted i.e. carrying its own assertions, the assertion / its object / its predicate elided, encrypted or compressed, and the predicate repeated) x 6-14 operations drawn from a table of 120 public entry points in the query / transform / obscure / verify / parse / format families with generated arguments (predicates present and absent, target sets, right and wrong keys, level limits, thresholds, salt lengths). oracle: every call returns (value, None or Err) — a panic is a violation, keyed by entry point and panic site. Calls whose documented contract is to panic are not in the table (add_assertions with a non-assertion, Response::with_result on a failure, expect_id, add_salt_in_range with an empty range). non-trivial: envelope has >=1 decorated or obscured element and >=1 op is not a pure getter; distinct by FNV-64 of (encoding, op indices); related operations also call Display / Debug, the generic elide_set/array/target(_with_action) forms, the *_opt / *_using variants, add_signatures(_opt), add_assertions_salted, tree_format_with_target_opt and the Attachments container; salted assertions decorated a second time on the outside (node in node); elements the add API refuses enter through the decoder; sealed messages that hold junk, truncated share objects",
         assumptions: &["process aborts (stack overflow) are out of reach of catch_unwind; nesting depth is bounded by the generators (<= 10) and the decode stream (<= 64)"],
         extra: None,
     }
